@@ -30,6 +30,8 @@ type C13Scenario struct {
 	Pubs       [][]C13Pub `json:"pubs"` // 1-2 publisher tasks
 	ErrHandler bool       `json:"err_handler"`
 	Reentrant  bool       `json:"reentrant,omitempty"` // the error handler publishes an alert event on the same bus
+	BySetter   bool       `json:"by_setter,omitempty"` // the error handler is installed with SetPersistenceErrorHandler after New
+	StoreLast  bool       `json:"store_last,omitempty"` // WithStore is the last option instead of the first
 	TimeoutMs  int        `json:"timeout_ms,omitempty"`
 	Obs        bool       `json:"obs,omitempty"`
 	Handlers   []SubOpts  `json:"handlers"`
@@ -66,6 +68,8 @@ func genC13(rt *rapid.T) core.Scenario {
 	sc.ErrHandler = rapid.IntRange(0, 3).Draw(rt, "errHandler") > 0
 	sc.Reentrant = sc.ErrHandler && rapid.IntRange(0, 3).Draw(rt, "reentrant") == 3
 	sc.Obs = rapid.IntRange(0, 3).Draw(rt, "obs") == 3
+	sc.BySetter = sc.ErrHandler && rapid.IntRange(0, 2).Draw(rt, "bySetter") == 2
+	sc.StoreLast = rapid.IntRange(0, 2).Draw(rt, "storeLast") == 2
 	nh := rapid.IntRange(1, 3).Draw(rt, "nHandlers")
 	for i := 0; i < nh; i++ {
 		sc.Handlers = append(sc.Handlers, SubOpts{Async: rapid.IntRange(0, 2).Draw(rt, "async") == 2, Seq: rapid.IntRange(0, 3).Draw(rt, "seq") == 3, Once: rapid.IntRange(0, 5).Draw(rt, "once") == 5})
@@ -127,10 +131,14 @@ func (sc *C13Scenario) Execute(t *testing.T) *core.Outcome {
 			}
 		}
 		store := fc.wrap(false)
-		opts := []eventbus.Option{eventbus.WithStore(store)}
+		var opts []eventbus.Option
+		if !sc.StoreLast {
+			opts = append(opts, eventbus.WithStore(store))
+		}
 		var bus *eventbus.EventBus
+		var errHandler eventbus.PersistenceErrorHandler
 		if sc.ErrHandler {
-			opts = append(opts, eventbus.WithPersistenceErrorHandler(func(ev any, et reflect.Type, err error) {
+			errHandler = func(ev any, et reflect.Type, err error) {
 				if simrt.Dying() {
 					return
 				}
@@ -150,7 +158,10 @@ func (sc *C13Scenario) Execute(t *testing.T) *core.Outcome {
 				if sc.Reentrant {
 					eventbus.Publish(bus, alertEvent{ID: id})
 				}
-			}))
+			}
+			if !sc.BySetter {
+				opts = append(opts, eventbus.WithPersistenceErrorHandler(errHandler))
+			}
 		}
 		if sc.TimeoutMs > 0 {
 			opts = append(opts, eventbus.WithPersistenceTimeout(time.Duration(sc.TimeoutMs)*time.Millisecond))
@@ -158,7 +169,13 @@ func (sc *C13Scenario) Execute(t *testing.T) *core.Outcome {
 		if sc.Obs {
 			opts = append(opts, eventbus.WithObservability(nopObs{}))
 		}
+		if sc.StoreLast {
+			opts = append(opts, eventbus.WithStore(store))
+		}
 		bus = eventbus.New(opts...)
+		if sc.ErrHandler && sc.BySetter {
+			bus.SetPersistenceErrorHandler(errHandler)
+		}
 		for hi, ho := range sc.Handlers {
 			hi := hi
 			var so []eventbus.SubscribeOption
